@@ -42,6 +42,10 @@ def cases(tier, seed, prep=None):
                             "bulk": [100000, 300000, 1000000, 3000000][(k // 2) % 4]})
     for i in range(60 if q else 2000):
         out.append({"kind": "oldpeer", "seed": b + 5000 + i})
+    foreign = [{}, {"app_versions": {}}, {"abilities": []}, {"can-dilate": []}, {"can-dilate": ["x"]}, {"app_versions": {"k": 1}, "can-dilate": ["2", "x"]}]
+    # (a malformed value such as "can-dilate": null is not a "non-dilating peer"; not part of this property)
+    for i in range(36 if q else 1200):
+        out.append({"kind": "oldpeer", "seed": b + 8000 + i, "peer_versions": foreign[i % len(foreign)]})
     return out
 
 
@@ -223,6 +227,11 @@ def run_oldpeer(spec):
     world = World(spec["seed"])
     rng = world.work_rng
     dp = DilatedPair(world, dilate_now=False, dilation=(True, False))
+    peer_versions = spec.get("peer_versions")
+    if peer_versions is not None:
+        # a peer written in another language: its `version` message is whatever that implementation
+        # sends (every key is optional) - here fixed by the case, e.g. exactly {}
+        dp.b.w._boss._K._SK._versions = peer_versions
     sch = Scheduler(world, None, strategy="random", chunking="whole")
     results = []
 
